@@ -144,7 +144,8 @@ def _work_l(job):
 S_FORMULAS = ["y ~ (1|g)", "y ~ (x|g)", "y ~ (f|g)", "y ~ (0 + f|g)", "y ~ (x + f|g)", "y ~ (x:f|g)", "y ~ (x|g:h)", "y ~ (f|h:g)", "y ~ (x|g + h)", "y ~ (x|g/f)", "y ~ (0 + x|C(k))", "y ~ (f:x|C(k))",
               "y ~ (1|g) + (0 + f|g)", "y ~ x + (center(x)|g)", "y ~ (poly(x, 2, raw=True)|g)",
               # numeric group ids whose numeric and lexicographic orders differ; grouping factors of three components
-              "y ~ (x|kb)", "y ~ (1|kb:f)", "y ~ (1|g:h:f)", "y ~ (x|f:g:h)", "y ~ (1|g/f/h)"]
+              "y ~ (x|kb)", "y ~ (1|kb:f)", "y ~ (1|g:h:f)", "y ~ (x|f:g:h)", "y ~ (1|g/f/h)",
+              "y ~ (0 + C(h, Sum)|g)", "y ~ (C(f, Sum)|g)", "y ~ (0 + S(f):x|g)"]
 
 
 def s_cases(tier):
